@@ -437,3 +437,40 @@ def rule_commit(ctx):
 
 
 RULES.append(("C20.h", "branch-commit: between the decision to perform an effect and the effect there is no way out", rule_commit))
+
+
+def rule_root_access(ctx):
+    """pull, peek and peek_key of the keyed queue hand out the element at the root of the heap (heap.first()): the key they return
+    is read from that element. Any other position is some element, not the smallest."""
+    P = ctx.prog
+    IP = "util::indexed_priority_queue::IndexedPriorityQueue::"
+    n = 0
+    for nm in ("pull", "peek", "peek_key"):
+        b = ctx.body(IP + nm)
+        if b is None:
+            continue
+        firsts = [s for s in b.calls(r"^core::slice::<impl \[T\]>::(first|first_mut)$")]
+        idx0 = []
+        ok = len(firsts) == 1
+        if ok:
+            ro = b.origins(firsts[0].args()[0], firsts[0])
+            ok = bool(ro) and all(any(x == ("f", "heap") for x in origin_proj_names(o)[1]) for o in ro)
+        keys = set()
+        somes = [r for r in K.ret_assigns(b) if not r.is_term and r.node["r"]["r"] == "agg" and r.node["r"].get("variant") == "Some"]
+        for r in somes:
+            for o in b.origins(r.node["r"]["ops"][0], r):
+                if o[0] == "agg" and o[3] == "tuple":
+                    a = Site(b, o[1], o[2])
+                    keys |= set(b.origins(a.node["r"]["ops"][0], a))
+                else:
+                    keys.add(o)
+        okk = ok and bool(somes) and bool(keys) and all(origin_contains(k, lambda t: t == ("call", firsts[0].b, firsts[0].callee)) for k in keys)
+        others = [s for s in b.calls(r"^core::slice::<impl \[T\]>::(last|last_mut|get|get_mut|get_unchecked)$|^std::vec::Vec::(last|pop)$")]
+        if nm != "pull":
+            okk = okk and not others
+        n += 1
+        ctx.ob("root-access|%s" % nm, okk, "the key handed out by %s is read from heap.first() (the root)" % nm, firsts + somes + others)
+    ctx.ob("floor|root-access", n == 3, "pull, peek and peek_key of the keyed queue are analysed (found %d)" % n)
+
+
+RULES.append(("C20.k", "pull / peek / peek_key hand out the root of the heap", rule_root_access))
